@@ -321,12 +321,11 @@ class MindsDBLexer(Lexer):
 
     @_(r"'(?:\\.|[^'])*(?:''(?:\\.|[^'])*)*'")
     def QUOTE_STRING(self, t):
-        t.value = t.value.replace('\\"', '"').replace("\\'", "'").replace("''", "'")
+        # the token keeps the text as written (raw queries and error messages are rebuilt from it); the parser decodes it
         return t
 
     @_(r'"(?:\\.|[^"])*"')
     def DQUOTE_STRING(self, t):
-        t.value = t.value.replace('\\"', '"').replace("\\'", "'")
         return t
 
     @_(r'\n+')
@@ -339,14 +338,6 @@ class MindsDBLexer(Lexer):
        r'@"[a-zA-Z_.$][^"]*"'
        )
     def VARIABLE(self, t):
-        t.value = t.value.lstrip('@')
-
-        if t.value[0] == '"':
-            t.value = t.value.strip('\"')
-        elif t.value[0] == "'":
-            t.value = t.value.strip('\'')
-        elif t.value[0] == "`":
-            t.value = t.value.strip('`')
         return t
 
     @_(r'@@[a-zA-Z_.$]+',
@@ -355,14 +346,6 @@ class MindsDBLexer(Lexer):
        r'@@"[a-zA-Z_.$][^"]*"'
        )
     def SYSTEM_VARIABLE(self, t):
-        t.value = t.value.lstrip('@')
-
-        if t.value[0] == '"':
-            t.value = t.value.strip('\"')
-        elif t.value[0] == "'":
-            t.value = t.value.strip('\'')
-        elif t.value[0] == "`":
-            t.value = t.value.strip('`')
         return t
 
     def error(self, t):
